@@ -2,7 +2,8 @@
 //!
 //! Correspondence (SC.C12.Corr): pruning test, tree construction, well-formedness of every dumped
 //! tree, the assignment step on the dumped tree for arbitrary centroid sets, k-means++ replayed from
-//! the recorded draws, whole fits replayed from the recorded seeding, predict.
+//! the recorded draws, whole fits replayed from the recorded seeding, predict (fitted and arbitrary
+//! centroid sets; ordinary data and data with a large common offset).
 //! Search: oracles written from the property text (exhaustive nearest-centroid search, cluster
 //! means/sizes recomputed from the final labels), never from the model or the implementation.
 use serde_json::{json, Value};
@@ -130,6 +131,86 @@ fn gen_data(rng: &mut Rng, fam: Fam, n: usize, d: usize) -> Vec<Vec<f64>> {
                 .collect()
         }
     }
+}
+
+/// Data whose coordinates share a LARGE COMMON OFFSET relative to their spread (time stamps, ids,
+/// coordinates in a far-away frame): column j holds step_j * (M_j + small integers) with
+/// |M_j| / range between 1e3 and 1e9 (some columns of a multi-column set stay plain, M_j = 0).
+/// Everything is an integer multiple of a power of two below 2^53 * step, so the values are exact,
+/// differences of values are exact, and two distinct values are >= step apart = at least ~1e4 ulp
+/// (never 1-ulp neighbours: the predicate of known finding bbd-adjacent-float-split cannot hold;
+/// step >= 2^-6 keeps distinct rows far above the 1e-10 leaf threshold).  Rows are grouped around
+/// 1..6 lattice points (`centers`); `row(.., extra)` draws a row with the noise widened by `extra`.
+struct OffsetFrame {
+    step: Vec<f64>,
+    base: Vec<i64>,
+    centers: Vec<Vec<i64>>,
+    width: i64,
+    range: i64,
+}
+impl OffsetFrame {
+    fn new(rng: &mut Rng, d: usize) -> OffsetFrame {
+        let range = *rng.pick(&[8i64, 32, 128, 512]);
+        let mut base: Vec<i64> = (0..d)
+            .map(|_| {
+                if d > 1 && rng.chance(0.3) {
+                    0
+                } else {
+                    let m = ((range as f64) * (10.0f64).powf(rng.uniform(3.0, 9.0))).floor() as i64;
+                    if rng.chance(0.25) {
+                        -m
+                    } else {
+                        m
+                    }
+                }
+            })
+            .collect();
+        if base.iter().all(|m| *m == 0) {
+            let j = rng.below(d);
+            base[j] = ((range as f64) * (10.0f64).powf(rng.uniform(3.0, 9.0))).floor() as i64;
+        }
+        // now and then the round numbers people actually have
+        if rng.chance(0.15) {
+            let j = rng.below(d);
+            base[j] = *rng.pick(&[1_700_000_000i64, 2_000_000_000, 1_000_000_000_000, 4_294_967_296, 20_240_101_000_000]);
+        }
+        let step: Vec<f64> = (0..d).map(|_| (2.0f64).powi(rng.int(-6, 8) as i32)).collect();
+        let c = rng.usize_in(1, 6);
+        let centers: Vec<Vec<i64>> = (0..c).map(|_| (0..d).map(|_| rng.int(0, range)).collect()).collect();
+        let width = rng.int(0, 3);
+        OffsetFrame { step, base, centers, width, range }
+    }
+    fn ratio(&self) -> f64 {
+        self.base.iter().map(|m| m.abs() as f64).fold(0.0, f64::max) / self.range as f64
+    }
+    fn row(&self, rng: &mut Rng, extra: i64) -> Vec<f64> {
+        let ce = &self.centers[rng.below(self.centers.len())];
+        (0..self.step.len()).map(|j| ((self.base[j] + ce[j] + rng.int(-self.width - extra, self.width + extra)) as f64) * self.step[j]).collect()
+    }
+    fn rows(&self, rng: &mut Rng, n: usize, extra: i64) -> Vec<Vec<f64>> {
+        (0..n).map(|_| self.row(rng, extra)).collect()
+    }
+    fn bucket(&self) -> &'static str {
+        let r = self.ratio();
+        if r <= 1e5 {
+            "offset/spread<=1e5"
+        } else if r <= 1e7 {
+            "offset/spread<=1e7"
+        } else {
+            "offset/spread<=1e9+"
+        }
+    }
+}
+/// offset data with at least k distinct rows
+fn gen_offset_fit_data(rng: &mut Rng, n: usize, d: usize, k: usize) -> Option<(OffsetFrame, Vec<Vec<f64>>)> {
+    for _ in 0..20 {
+        let fr = OffsetFrame::new(rng, d);
+        let data = fr.rows(rng, n, 0);
+        if distinct_rows(&data) >= k {
+            return Some((fr, data));
+        }
+    }
+    None
 }
 
 /// centroid sets for the assignment step; returns (centroids, family name, on the data's dyadic lattice?)
@@ -445,6 +526,109 @@ fn check_assignment(out: &mut Out, data: &[Vec<f64>], centroids: &[Vec<f64>], ex
     }
 }
 
+thread_local! {
+    /// predictions accepted although another centroid is closer by less than the margin (near ties)
+    static PREDICT_NEAR_TIES: std::cell::Cell<usize> = std::cell::Cell::new(0);
+}
+/// "Predicting assigns every row to a centroid at minimal Euclidean distance": exhaustive search with
+/// squared distances computed from the coordinate DIFFERENCES (x and c of the same magnitude subtract
+/// exactly, so this is accurate to a few ulp of the distance itself whatever the common offset is).
+/// A label is accepted when its centroid is within a relative margin 1e-9 of the minimum (near ties are
+/// excluded from the verdict and counted).
+fn predict_labels_violation(cents: &[Vec<f64>], x: &[Vec<f64>], lab: &[f64]) -> Option<(String, String)> {
+    let k = cents.len();
+    if lab.len() != x.len() {
+        return Some(("predict_nearest".into(), "wrong number of predictions".into()));
+    }
+    for (i, l) in lab.iter().enumerate() {
+        let li = *l as usize;
+        if !(*l >= 0.0) || li as f64 != *l || li >= k {
+            return Some(("predict_nearest".into(), format!("prediction {} for row {} is not a cluster index", l, i)));
+        }
+        let ds: Vec<f64> = cents.iter().map(|c| sqd(&x[i], c)).collect();
+        let dmin = ds.iter().cloned().fold(f64::INFINITY, f64::min);
+        let dmax = ds.iter().cloned().fold(0.0, f64::max);
+        if !(ds[li] <= dmin + 1e-9 * dmin + 1e-12 * dmax) {
+            return Some((
+                "predict_nearest".into(),
+                format!("row {} {:?} predicted {} at squared distance {:e}, nearest centroid at {:e}", i, x[i], li, ds[li], dmin),
+            ));
+        }
+        if ds[li] > dmin {
+            PREDICT_NEAR_TIES.with(|c| c.set(c.get() + 1));
+        }
+    }
+    None
+}
+/// a model with the given centroids, through the public serde interface (predict only reads k and centroids)
+fn model_from_centroids(cents: &[Vec<f64>]) -> Result<KMeans<f64>, String> {
+    let k = cents.len();
+    serde_json::from_value::<KMeans<f64>>(json!({"k": k, "_y": [], "size": vec![0usize; k], "_distortion": 0.0, "centroids": cents}))
+        .map_err(|e| e.to_string())
+}
+/// predict for an ARBITRARY centroid set (coincident, far away, means of a partition ...) and arbitrary rows
+fn predict_violation(cents: &[Vec<f64>], x: &[Vec<f64>]) -> Option<(String, String)> {
+    let model = match model_from_centroids(cents) {
+        Ok(m) => m,
+        Err(e) => return Some(("predict_panic".into(), format!("model could not be rebuilt from its serde form: {}", e))),
+    };
+    match run_predict(&model, x) {
+        Err(e) => Some(("predict_panic".into(), e)),
+        Ok(lab) => predict_labels_violation(cents, x, &lab),
+    }
+}
+fn shrink_predict(cents: &[Vec<f64>], x: &[Vec<f64>], clause: &str) -> (Vec<Vec<f64>>, Vec<Vec<f64>>) {
+    let mut cs = cents.to_vec();
+    let mut x = x.to_vec();
+    let still = |c: &[Vec<f64>], x: &[Vec<f64>]| -> bool { matches!(predict_violation(c, x), Some((cl, _)) if cl == clause) };
+    let mut progress = true;
+    let mut budget = 2000usize;
+    while progress && budget > 0 {
+        progress = false;
+        let mut i = 0;
+        while i < x.len() && x.len() > 1 && budget > 0 {
+            let mut t = x.clone();
+            t.remove(i);
+            budget -= 1;
+            if still(&cs, &t) {
+                x = t;
+                progress = true;
+            } else {
+                i += 1;
+            }
+        }
+        let mut j = 0;
+        while j < cs.len() && cs.len() > 2 && budget > 0 {
+            let mut t = cs.clone();
+            t.remove(j);
+            budget -= 1;
+            if still(&t, &x) {
+                cs = t;
+                progress = true;
+            } else {
+                j += 1;
+            }
+        }
+    }
+    (cs, x)
+}
+fn check_predict(out: &mut Out, cents: &[Vec<f64>], x: &[Vec<f64>], fam: &str, cfam: &str) {
+    let mut key: Vec<f64> = cents.iter().flatten().cloned().collect();
+    key.extend(x.iter().flatten());
+    out.eval(hash_f64s(&key), cents.len() >= 2 && distinct_rows(cents) >= 2);
+    out.count(&format!("search:predict:{}:{}", fam, cfam));
+    out.count(&format!("search:predict:k={}", cents.len()));
+    let before = PREDICT_NEAR_TIES.with(|c| c.get());
+    if let Some((clause, what)) = predict_violation(cents, x) {
+        let (sc, sx) = shrink_predict(cents, x, &clause);
+        let what2 = predict_violation(&sc, &sx).map(|v| v.1).unwrap_or(what);
+        out.fail(&clause, &what2, json!({"entry": "predict", "centroids": sc, "x": sx}));
+    }
+    if PREDICT_NEAR_TIES.with(|c| c.get()) > before {
+        out.count("search:predict:near-tie-within-margin(accepted)");
+    }
+}
+
 /// k-means bookkeeping + predict on one fit. `queries`: extra rows to predict.
 fn fit_violation(data: &[Vec<f64>], k: usize, max_iter: usize, queries: &[Vec<f64>]) -> Option<(String, String)> {
     let n = data.len();
@@ -494,23 +678,8 @@ fn fit_violation(data: &[Vec<f64>], k: usize, max_iter: usize, queries: &[Vec<f6
     match run_predict(&f.model, &x) {
         Err(e) => return Some(("predict_panic".into(), e)),
         Ok(lab) => {
-            if lab.len() != x.len() {
-                return Some(("predict_nearest".into(), "wrong number of predictions".into()));
-            }
-            for (i, l) in lab.iter().enumerate() {
-                let li = *l as usize;
-                if !(*l >= 0.0) || li as f64 != *l || li >= k {
-                    return Some(("predict_nearest".into(), format!("prediction {} for row {} is not a cluster index", l, i)));
-                }
-                let ds: Vec<f64> = cents.iter().map(|c| sqd(&x[i], c)).collect();
-                let dmin = ds.iter().cloned().fold(f64::INFINITY, f64::min);
-                let dmax = ds.iter().cloned().fold(0.0, f64::max);
-                if !(ds[li] <= dmin + 1e-12 * dmax) {
-                    return Some((
-                        "predict_nearest".into(),
-                        format!("row {} predicted {} at squared distance {:e}, nearest centroid at {:e}", i, li, ds[li], dmin),
-                    ));
-                }
+            if let Some(v) = predict_labels_violation(&cents, &x, &lab) {
+                return Some(v);
             }
         }
     }
@@ -526,6 +695,7 @@ fn check_fit(out: &mut Out, data: &[Vec<f64>], k: usize, max_iter: usize, querie
     out.count(&format!("search:fit:k={}", k));
     out.count(&format!("search:fit:max_iter<={}", if max_iter <= 1 { 1 } else if max_iter <= 5 { 5 } else if max_iter <= 20 { 20 } else { 100 }));
     out.count(&format!("search:fit:n<={}", if n <= 10 { 10 } else if n <= 50 { 50 } else if n <= 150 { 150 } else { 300 }));
+    let before = PREDICT_NEAR_TIES.with(|c| c.get());
     for _ in 0..reps {
         // the seeding is drawn from an unseeded thread-local RNG: repeated fits explore initialisations
         out.eval(hash_f64s(&key), true);
@@ -533,6 +703,9 @@ fn check_fit(out: &mut Out, data: &[Vec<f64>], k: usize, max_iter: usize, querie
             out.fail(&clause, &what, json!({"entry": "fit", "data": data, "k": k, "max_iter": max_iter, "queries": queries, "repeat": 200}));
             return;
         }
+    }
+    if PREDICT_NEAR_TIES.with(|c| c.get()) > before {
+        out.count("search:fit:predict-near-tie-within-margin(accepted)");
     }
 }
 
@@ -556,6 +729,11 @@ fn coq_nodes(nodes: &[VerifBBDNode<f64>]) -> String {
 }
 
 fn corr_tree_and_assign(out: &mut Out, rng: &mut Rng, data: &[Vec<f64>], fam: Fam, ncent: usize) {
+    let slack = if fam == Fam::Lattice { 0.0 } else { 1e-12 * max_abs(data).max(1e-300) };
+    corr_tree_and_assign_ex(out, rng, data, slack, fam, ncent)
+}
+/// `slack`: box-containment slack of corr_wf; `cfam`: family the centroid generator is run with
+fn corr_tree_and_assign_ex(out: &mut Out, rng: &mut Rng, data: &[Vec<f64>], slack: f64, fam: Fam, ncent: usize) {
     let d = data[0].len();
     let n = data.len();
     let input = json!({"entry": "tree", "data": data});
@@ -567,7 +745,6 @@ fn corr_tree_and_assign(out: &mut Out, rng: &mut Rng, data: &[Vec<f64>], fam: Fa
         }
     };
     let (nodes, perm, root) = tree.verif_dump();
-    let slack = if fam == Fam::Lattice { 0.0 } else { 1e-12 * max_abs(data).max(1e-300) };
     // the leaf rule of build_node merges rows closer than 1e-10: only then is the dump not well-formed
     if min_separation(data) > 4e-10 {
         out.corr(
@@ -607,6 +784,20 @@ fn corr_tree_and_assign(out: &mut Out, rng: &mut Rng, data: &[Vec<f64>], fam: Fa
                     coq_list_n(&a.memb)
                 ),
                 json!({"entry": "assign", "data": data, "centroids": cs, "exact": false}),
+            );
+        }
+    }
+}
+
+/// predict model vs implementation for an arbitrary centroid set (model rebuilt through serde)
+fn corr_predict_case(out: &mut Out, cents: &[Vec<f64>], x: &[Vec<f64>]) {
+    if let Ok(model) = model_from_centroids(cents) {
+        if let Ok(lab) = run_predict(&model, x) {
+            let lab: Vec<usize> = lab.iter().map(|v| *v as usize).collect();
+            out.corr(
+                "predict",
+                format!("corr_predict {} {} {} {}", coq_n(cents.len()), coq_rows_f64(cents), coq_rows_f64(x), coq_list_n(&lab)),
+                json!({"entry": "predict", "centroids": cents, "x": x}),
             );
         }
     }
@@ -742,6 +933,11 @@ fn replay(path: &str) -> i32 {
             r
         }
         "prune" => None,
+        "predict" => {
+            let cs = rows_from_json(&inp["centroids"]);
+            let x = rows_from_json(&inp["x"]);
+            predict_violation(&cs, &x)
+        }
         // tree construction only, in THIS process: an unbounded recursion aborts it (exit by signal)
         "build_probe" => {
             let data = rows_from_json(&inp["data"]);
@@ -862,6 +1058,40 @@ fn main() {
         }
     }
 
+    // ---- correspondence on data with a large common offset (tree, assignment step, fit, predict) ----
+    let (n_otree, n_ofit, n_opred) = if a.thorough { (40, 60, 80) } else { (12, 20, 30) };
+    for _ in 0..n_otree {
+        let d = rng.usize_in(1, 3);
+        let fr = OffsetFrame::new(&mut rng, d);
+        let n = rng.usize_in(2, 24);
+        let data = fr.rows(&mut rng, n, 0);
+        out.count(&format!("corr:offset:{}", fr.bucket()));
+        // lattice-valued: box bounds, centre and radius are exact, so the dump must be well-formed with slack 0
+        corr_tree_and_assign_ex(&mut out, &mut rng, &data, 0.0, Fam::Clustered, 2);
+    }
+    for _ in 0..n_ofit {
+        let k = rng.usize_in(2, 4);
+        let n = rng.usize_in(k.max(3), 24);
+        let d = rng.usize_in(1, 3);
+        let max_iter = *rng.pick(&[1usize, 2, 5, 30, 100]);
+        if let Some((fr, data)) = gen_offset_fit_data(&mut rng, n, d, k) {
+            out.count(&format!("corr:offset:{}", fr.bucket()));
+            corr_fit_case(&mut out, &data, k, max_iter);
+        }
+    }
+    for _ in 0..n_opred {
+        let d = rng.usize_in(1, 3);
+        let fr = OffsetFrame::new(&mut rng, d);
+        let n = rng.usize_in(2, 16);
+        let data = fr.rows(&mut rng, n, 0);
+        let k = rng.usize_in(2, 5);
+        let (cs, _, _) = gen_centroids(&mut rng, &data, Fam::Clustered, k);
+        let mut x = data.clone();
+        x.extend(fr.rows(&mut rng, 4, 3));
+        out.count(&format!("corr:offset:{}", fr.bucket()));
+        corr_predict_case(&mut out, &cs, &x);
+    }
+
     // ---- search: assignment step against exhaustive search ----
     let n_assign = if a.thorough { 60000 } else { 12000 };
     for i in 0..n_assign {
@@ -946,6 +1176,88 @@ fn main() {
         queries.truncate(nq);
         let reps = if n <= 15 { 4 } else { 2 };
         check_fit(&mut out, &data, k, max_iter, &queries, fam.name(), reps);
+    }
+    // ---- search: data with a large common offset relative to its spread (offset/spread 1e3 .. 1e9) ----
+    // (a) predict for arbitrary centroid sets, (b) the assignment step, (c) whole fits + predict.
+    // regression input: three bursts of events 20 s apart, time-stamped in Unix seconds, plus a small feature
+    {
+        let t0 = 1_700_000_000.0f64;
+        let mut rows: Vec<Vec<f64>> = vec![];
+        for (burst, base) in [0.0f64, 20.0, 40.0].iter().enumerate() {
+            for s in 0..6 {
+                rows.push(vec![t0 + base + s as f64, (burst as f64) * 2.0 + (s % 2) as f64]);
+            }
+        }
+        let cs: Vec<Vec<f64>> = (0..3).map(|b| vec![t0 + 20.0 * b as f64 + 2.5, 2.0 * b as f64 + 0.5]).collect();
+        check_predict(&mut out, &cs, &rows, "corpus", "timestamps");
+        check_assignment(&mut out, &rows, &cs, false, "corpus", "timestamps");
+        check_fit(&mut out, &rows, 3, 100, &[], "corpus", 5);
+        let line: Vec<Vec<f64>> = (0..12).map(|i| vec![2.0e9 + (i / 4) as f64 * 16.0 + (i % 4) as f64]).collect();
+        check_predict(&mut out, &[vec![2.0e9 + 1.5], vec![2.0e9 + 17.5], vec![2.0e9 + 33.5]], &line, "corpus", "offset-1d");
+        check_fit(&mut out, &line, 3, 100, &[], "corpus", 5);
+    }
+    let (n_opredict, n_oassign, n_ofitsearch) = if a.thorough { (20000, 8000, 3000) } else { (4000, 1500, 500) };
+    for _ in 0..n_opredict {
+        let d = rng.usize_in(1, 6);
+        let fr = OffsetFrame::new(&mut rng, d);
+        let n = rng.usize_in(2, 40);
+        let data = fr.rows(&mut rng, n, 0);
+        let k = rng.usize_in(2, 8);
+        let (cs, cname, _) = gen_centroids(&mut rng, &data, Fam::Clustered, k);
+        let mut x = data.clone();
+        let nq = rng.usize_in(0, 10);
+        x.extend(fr.rows(&mut rng, nq, 4));
+        out.count(&format!("search:predict:{}", fr.bucket()));
+        check_predict(&mut out, &cs, &x, "offset", cname);
+    }
+    // predict on ordinary data with arbitrary centroid sets as well (coincident / far centroids)
+    for _ in 0..(n_opredict / 4) {
+        let fam = pick_family(&mut rng);
+        let d = rng.usize_in(1, 6);
+        let n = rng.usize_in(2, 40);
+        let data = gen_data(&mut rng, fam, n, d);
+        let k = rng.usize_in(2, 8);
+        let (cs, cname, _) = gen_centroids(&mut rng, &data, fam, k);
+        check_predict(&mut out, &cs, &data, fam.name(), cname);
+    }
+    for _ in 0..n_oassign {
+        let d = rng.usize_in(1, 6);
+        let fr = OffsetFrame::new(&mut rng, d);
+        let n = match rng.below(10) {
+            0..=4 => rng.usize_in(2, 12),
+            5..=8 => rng.usize_in(10, 80),
+            _ => rng.usize_in(80, 300),
+        };
+        let data = fr.rows(&mut rng, n, 0);
+        let k = rng.usize_in(2, 8);
+        let (cs, cname, _) = gen_centroids(&mut rng, &data, Fam::Clustered, k);
+        out.count(&format!("search:assign:{}", fr.bucket()));
+        check_assignment(&mut out, &data, &cs, false, "offset", cname);
+    }
+    for _ in 0..n_ofitsearch {
+        let k = rng.usize_in(2, 8);
+        let n = match rng.below(10) {
+            0..=3 => rng.usize_in(k, 15),
+            4..=8 => rng.usize_in(k.max(10), 80),
+            _ => rng.usize_in(80, 300),
+        };
+        let d = rng.usize_in(1, 6);
+        let max_iter = match rng.below(3) {
+            0 => 1,
+            1 => rng.usize_in(2, 10),
+            _ => rng.usize_in(11, 100),
+        };
+        let (fr, data) = match gen_offset_fit_data(&mut rng, n, d, k) {
+            Some(x) => x,
+            None => {
+                out.count("search:fit:excluded(fewer than k distinct rows)");
+                continue;
+            }
+        };
+        let nq = rng.usize_in(0, 10);
+        let queries = fr.rows(&mut rng, nq, 4);
+        out.count(&format!("search:fit:{}", fr.bucket()));
+        check_fit(&mut out, &data, k, max_iter, &queries, "offset", if n <= 15 { 4 } else { 2 });
     }
     // parameter validation (the unit test's clause)
     for (k, mi) in [(0usize, 10usize), (1, 10), (2, 0)] {
